@@ -876,7 +876,10 @@ def _to_c_expr(
 
         raise ValueError("unsupported")
 
-    tree = ast.parse(expr, mode="eval")
+    try:
+        tree = ast.parse(expr, mode="eval")
+    except SyntaxError as exc:
+        raise ValueError(f"unsupported expression: {expr!r}") from exc
     return emit(tree.body)
 
 
